@@ -25,7 +25,7 @@ T_VISUAL = "the visual printer is modelled by hand (`Vis.nodeJ` etc.) and tied b
 
 PROPS = {
     "C01": {
-        "claim": "partial proof: (1) the combination parser (ParseIntoNodeTree / detectCombinations / extractSharedComponents) is modelled in Lean (Model/Combo.lean) and tied to the Go code by a correspondence stream (token strings, all strings over a 6-token alphabet up to length 5/6, rendered and mutated expressions, both bracket kinds, panics included); for that model the round trip is proved for every input of the following documented forms, at any nesting depth and for all values free of parentheses/brackets: fully parenthesised binary combinations over [AND]/[OR]/[XOR] (`combination_parser_round_trip`), same-operator chains of such operands, parsed by the re-bracketing rewrite into the left-nested tree (`combination_parser_chain`), shared text left/right of an inner combination (`combination_parser_shared_text`) and two combinations in one component joined by wAND with the text between them shared (`combination_parser_two_combinations`): the parser returns exactly the tree the notation denotes and no error; (2) the documented meaning (`denote`) is proved to keep exactly the annotated texts in source order as leaves for every component content, to associate chains to the left, to bind parentheses as written, to place outside text on the inner combination and to join separate annotations by the implicit conjunction; (3) the component/field wiring tables are regenerated from source and proved equal to the specification's symbol table. and for chains anywhere - any parenthesised group at any depth may be a chain of one operator - the parser is proved to rewrite once per additional operand, always at the first repeated operator in reading order, and to return the tree with every chain nested to the left (`combination_parser_chains_anywhere`). the two attempts of parseComponent on a content whose outer parentheses are missing (`component_content_without_outer_parentheses`: first attempt = operator outside combination, second attempt in parentheses = the written tree) and shared text written directly inside the component's parentheses (`shared_text_directly_inside_component`) are proved as well. shared text around a group that holds chains is covered too (`shared_text_around_chains`, by normalisation inside a context: `detect_norm_ctx`). two groups with chains in one component likewise (`two_groups_with_chains`). Not proved: three and more combinations in one component at the parser level, and the regex-driven extraction of components from a statement (parse (render s) = denote s for whole statements) - these are decided by the correspondence run over generated grammar ASTs; one open known finding",
+        "claim": "partial proof: (1) the combination parser (ParseIntoNodeTree / detectCombinations / extractSharedComponents) is modelled in Lean (Model/Combo.lean) and tied to the Go code by a correspondence stream (token strings, all strings over a 6-token alphabet up to length 5/6, rendered and mutated expressions, both bracket kinds, panics included); for that model the round trip is proved for every input of the following documented forms, at any nesting depth and for all values free of parentheses/brackets: fully parenthesised binary combinations over [AND]/[OR]/[XOR] (`combination_parser_round_trip`), same-operator chains of such operands, parsed by the re-bracketing rewrite into the left-nested tree (`combination_parser_chain`), shared text left/right of an inner combination (`combination_parser_shared_text`) and two combinations in one component joined by wAND with the text between them shared (`combination_parser_two_combinations`): the parser returns exactly the tree the notation denotes and no error; (2) the documented meaning (`denote`) is proved to keep exactly the annotated texts in source order as leaves for every component content, to associate chains to the left, to bind parentheses as written, to place outside text on the inner combination and to join separate annotations by the implicit conjunction; (3) the component/field wiring tables are regenerated from source and proved equal to the specification's symbol table. and for chains anywhere - any parenthesised group at any depth may be a chain of one operator - the parser is proved to rewrite once per additional operand, always at the first repeated operator in reading order, and to return the tree with every chain nested to the left (`combination_parser_chains_anywhere`). the two attempts of parseComponent on a content whose outer parentheses are missing (`component_content_without_outer_parentheses`: first attempt = operator outside combination, second attempt in parentheses = the written tree) and shared text written directly inside the component's parentheses (`shared_text_directly_inside_component`) are proved as well. shared text around a group that holds chains is covered too (`shared_text_around_chains`, by normalisation inside a context: `detect_norm_ctx`). two groups with chains in one component likewise (`two_groups_with_chains`); and for the grammar AST of the specification itself: for every `Expr` built from values, binary combinations and chains nested in any way, parse (render e) = denote e at the level of the combination parser (`combination_parser_round_trip_expr`). Not proved: three and more combinations in one component at the parser level, and the regex-driven extraction of components from a statement (parse (render s) = denote s for whole statements) - these are decided by the correspondence run over generated grammar ASTs; one open known finding",
         "note": T_PARSER,
         "rule": PARSE_RULE,
         "assumptions": ["Go regexp/strings behave as documented", "texts are drawn from the word/punctuation alphabets of DESIGN.md section 3"],
